@@ -36,6 +36,22 @@
 
 use thiserror::Error;
 
+/// Scheduling point for the model-checking harness; expands to nothing unless the
+/// `verif-hooks` feature is on.
+#[cfg(feature = "verif-hooks")]
+macro_rules! vp_sched {
+    ($site:expr) => {
+        $crate::verif_hooks::sched_point($site)
+    };
+}
+#[cfg(not(feature = "verif-hooks"))]
+macro_rules! vp_sched {
+    ($site:expr) => {};
+}
+
+#[cfg(feature = "verif-hooks")]
+pub mod verif_hooks;
+
 // Container architecture (CASC four-container model)
 pub mod container;
 
